@@ -19,6 +19,7 @@ EXPLANATION = (
     "R02.6 includes the make_prediction sequencing clauses of C07 (the box kept for the next association is converted from the UPDATED state); (R02.11) the batch trackers release the batch monitor only after the scene result was sent, i.e. after the store updates of the batch, so the next batch computes distances against current tracks."
     ' (R02.12) the quantity the IoU gate compares is the IoU of C08 (intersection = area of the clip of the two box polygons unless too_far, IoU = I / (A_l + A_r - I)) and the bounding-circle reach of the Mahalanobis mode compares the centre distance with the sum of both bounding radii.'
     ' (R02.13) the squared Mahalanobis distance the gate compares is the textbook one (R07.11 normal form, no in-place rewrite of a residual component), computed by a filter built from the weights of the track it is measured for; (R02.14) the assignment is sized by len() of every shard read under a blocking lock and predict advances the scene epoch exactly once before candidates are compared; (R02.15) assignment weights are 64-bit fixed point.')
+EXPLANATION += ' Round 6: metric() answers None (no record for a pair) only on the too_far side; the IoU is absent exactly when the intersection is 0 (R02.12, shared with C08); fixed-point weights are not saturated (R02.15); Track::distances reports a missing class by the map lookup alone (R02.4).'
 NOT_DECIDED = ["optimality of the assignment (trusted: pathfinding::kuhn_munkres)", "IoU / Kalman numerics",
                "uniqueness margins / ties"]
 ASSUMPTIONS = ["pathfinding::kuhn_munkres returns a maximum-weight perfect matching of the rows",
@@ -64,7 +65,10 @@ def run(ctx):
     n += C20.r4(ctx, 'R02.12', ('too_far',))
     n += C08.radius_rule(ctx, 'R02.12')
     n += geomlib.iou_rule(ctx, 'R02.12')
-    ctx.floor('R02.12', n, 14)
+    # ... and it is absent exactly when the intersection is 0 (an area tolerance turns small overlapping boxes into
+    # non-overlapping ones: no weight, no gate)
+    n += sum(C08.iou_rules(ctx, 'R02.12', 'R02.12', kinds=('universal',)))
+    ctx.floor('R02.12', n, 16)
     import misclib
     ctx.rule('R02.15', 'assignment weights are 64-bit fixed point')
     ctx.floor('R02.15', misclib.rule_weights_fit(ctx, 'R02.15'), 2)
